@@ -107,10 +107,17 @@ def _zygote_start() -> tuple:
     return pid, cmd_w, res_r, ctl_r
 
 
-def _fork_run_zygote(fn, args, real_timeout: float, seed):
+def start_zygote() -> None:
+    """Fork this process' zygote now (a pool worker does so before it has seen its first job: what a job's arguments
+    leave on the worker's heap must not become part of the image every run of that worker starts from)."""
     global _ZYGOTE  # pylint: disable=global-statement
     if _ZYGOTE is None or _ZYGOTE[4] != os.getpid():
         _ZYGOTE = (*_zygote_start(), os.getpid())
+
+
+def _fork_run_zygote(fn, args, real_timeout: float, seed):
+    global _ZYGOTE  # pylint: disable=global-statement
+    start_zygote()
     _, cmd_w, res_r, ctl_r, _ = _ZYGOTE
     data = pickle.dumps((fn, args, seed))
     data = struct.pack('<I', len(data)) + data
